@@ -78,3 +78,15 @@ package filter
 //@     invariant err == nil
 //@     invariant forall i int :: 0 <= i && i <= idx ==> !sem_term(terms[i], attrs)
 //@     invariant idx >= 0 ==> !result
+
+// C08 (printer): an attribute name is printed verbatim only when it lexes as one identifier; everything else -
+// including the empty name - is printed as a quoted string, so that the printed filter parses back to the same name.
+//@ func formatAttrName(name) (result)
+//@   property C08
+//@   uses filterprint
+//@   ensures identifiers_verbatim: is_ident(name) ==> result == name
+//@   ensures everything_else_quoted: !is_ident(name) ==> result == quoted(name)
+//@   modifies nothing
+//@   loop 1
+//@     invariant runestart(name, strpos)
+//@     invariant forall p int :: {runestart(name, p)} runestart(name, p) && p < strpos ==> identrune(runeat(name, p), p)
